@@ -812,6 +812,47 @@ example :
     [(exEnv [1, 0] [10], .api (.load kn)), (exEnv [1, 0] [10], .api (.load kb))]
     [(exEnv [1, 0] [10], .api (.load ke)), (exEnv [1, 0] [10], .hotReload)] rfl).1
 
+/-- **A history of loads, then edit, notify, `hot_reload`** (partial): the same as
+`C05_load_edit_reload_converges_partial` with the state before the edit produced by a whole history
+`h ++ [hot_reload]` of loads (`LoadHist`, every load `LoadOK`) from the empty cache and an empty reloader. -/
+theorem C05_history_edit_reload_converges_partial (env env' : Env) (fuel : Nat) (h : List (Env × HOp))
+    (changed : List Dep) {rank : Dep → Nat}
+    (hS : env.Steady) (hS' : env'.Steady) (hL : SameLoaders env env')
+    (hh : LoadHist env fuel (h ++ [(env, .hotReload)]) ({}, {}))
+    (hfile : ∀ id ext, Dep.file id ext ∉ changed → env'.read 0 id ext = env.read 0 id ext)
+    (hdir : ∀ id, Dep.dir id ∉ changed → env'.readDir 0 id = env.readDir 0 id)
+    (hrank : ∀ a rs b, (runH fuel (h ++ [(env, .hotReload)]) ({}, {})).2.graph.rdepsOf a = some rs → b ∈ rs → rank b < rank a)
+    (hfuel : (runH fuel (h ++ [(env, .hotReload)]) ({}, {})).2.graph.length + 1 ≤ fuel)
+    (hmiss : NoMissInPass env' fuel (updateSteps env' fuel
+      (handleEvents env' fuel (runH fuel (h ++ [(env, .hotReload)]) ({}, {})).1 (runH fuel (h ++ [(env, .hotReload)]) ({}, {})).2 changed).1
+      (handleEvents env' fuel (runH fuel (h ++ [(env, .hotReload)]) ({}, {})).1 (runH fuel (h ++ [(env, .hotReload)]) ({}, {})).2 changed).2))
+    (hret : ReloadsReturn env' fuel (updateSteps env' fuel
+      (handleEvents env' fuel (runH fuel (h ++ [(env, .hotReload)]) ({}, {})).1 (runH fuel (h ++ [(env, .hotReload)]) ({}, {})).2 changed).1
+      (handleEvents env' fuel (runH fuel (h ++ [(env, .hotReload)]) ({}, {})).1 (runH fuel (h ++ [(env, .hotReload)]) ({}, {})).2 changed).2))
+    (hrewire : NoRewireOntoPending env' fuel (updateSteps env' fuel
+      (handleEvents env' fuel (runH fuel (h ++ [(env, .hotReload)]) ({}, {})).1 (runH fuel (h ++ [(env, .hotReload)]) ({}, {})).2 changed).1
+      (handleEvents env' fuel (runH fuel (h ++ [(env, .hotReload)]) ({}, {})).1 (runH fuel (h ++ [(env, .hotReload)]) ({}, {})).2 changed).2)) :
+    Settled env' fuel
+      (hotReload env' fuel
+        (handleEvents env' fuel (runH fuel (h ++ [(env, .hotReload)]) ({}, {})).1 (runH fuel (h ++ [(env, .hotReload)]) ({}, {})).2 changed).1
+        (handleEvents env' fuel (runH fuel (h ++ [(env, .hotReload)]) ({}, {})).1 (runH fuel (h ++ [(env, .hotReload)]) ({}, {})).2 changed).2).1
+      (hotReload env' fuel
+        (handleEvents env' fuel (runH fuel (h ++ [(env, .hotReload)]) ({}, {})).1 (runH fuel (h ++ [(env, .hotReload)]) ({}, {})).2 changed).1
+        (handleEvents env' fuel (runH fuel (h ++ [(env, .hotReload)]) ({}, {})).1 (runH fuel (h ++ [(env, .hotReload)]) ({}, {})).2 changed).2).2.graph ∧
+    (hotReload env' fuel
+        (handleEvents env' fuel (runH fuel (h ++ [(env, .hotReload)]) ({}, {})).1 (runH fuel (h ++ [(env, .hotReload)]) ({}, {})).2 changed).1
+        (handleEvents env' fuel (runH fuel (h ++ [(env, .hotReload)]) ({}, {})).1 (runH fuel (h ++ [(env, .hotReload)]) ({}, {})).2 changed).2).2.dead = false := by
+  obtain ⟨hinv, hall⟩ := loads_settle hS hh (HInv.init env fuel)
+  obtain ⟨l1, l3⟩ := hall h [] rfl
+  have l2 : GraphOK (runH fuel (h ++ [(env, .hotReload)]) ({}, {})).2.graph := C05_history_keeps_graphOK fuel _ _ graphOK_nil
+  have hd1 := hinv.live
+  have hs1 := hinv.local_
+  generalize runH fuel (h ++ [(env, .hotReload)]) ({}, {}) = x1 at *
+  obtain ⟨s1, r1⟩ := x1
+  rw [handleEvents_local env' fuel s1 r1 changed hd1 hs1 l3] at hmiss hret hrewire ⊢
+  exact C05_hot_reload_converges_partial env env' fuel _ _ changed hS hS' hL l1 l2 hrank hd1 hfuel l3 hs1 hfile hdir
+    (fun d hd hg => mem_keepEvents _ changed _ d hd hg) hmiss hret hrewire
+
 /-! ### The unrestricted load statement is false: three refutations
 
 Loaders of a tiny all-hot type table (all `Plain`): `x` returns `0`; `y` fails; `a` loads `y` and
